@@ -554,6 +554,11 @@ func (r *registry) doTokenRequest(req *http.Request) (*wireToken, error) {
 		return nil, err
 	}
 	defer resp.Body.Close()
+	if resp.StatusCode < 200 {
+		// An informational response has no body to read (for 101, the
+		// "body" is the connection itself, which might stay silent for ever).
+		return nil, ociregistry.NewHTTPError(nil, resp.StatusCode, resp, nil)
+	}
 	data, bodyErr := io.ReadAll(resp.Body)
 	if resp.StatusCode != http.StatusOK {
 		return nil, ociregistry.NewHTTPError(nil, resp.StatusCode, resp, data)
